@@ -993,7 +993,7 @@ func (x *run) quiesce() {
 				x.afterStep(rs, st, pre, post, err)
 				st2 := &sim.Step{Op: "push", R: rs.r.Idx, H: hi}
 				_ = x.stepPush(rs, st2)
-				x.w.Log.Add("sync %s hub%d pull=%v", rs.r.Name, hi, err)
+				x.w.Log.Add("sync %s hub%d pull ok=%v", rs.r.Name, hi, err == nil)
 			}
 		}
 		x.w.Log.EndStep(fmt.Sprintf("sync round %d", round), true)
